@@ -63,7 +63,9 @@ fn exec_call(root: &VfsPath, c: &Call, handle: &mut Option<Box<dyn vfs::SeekAndW
         },
         Call::WriteClose(b) => match handle.take() {
             Some(mut h) => {
-                let r = h.write_all(b).and_then(|_| h.flush());
+                // write, then close: the drop publishes the buffer under one lock acquisition (an
+                // explicit flush before it would be a second, separate publish)
+                let r = h.write_all(b);
                 drop(h);
                 if r.is_ok() {
                     Res::Unit
@@ -248,6 +250,21 @@ pub fn run_c16(ctx: &Ctx) -> i32 {
     for init in inits16() {
         for ms in multisets(full.len(), 2) {
             programs.push(("2 threads x 1 call/session".into(), LinProgram { init: init.clone(), threads: ms.iter().map(|i| full[*i].clone()).collect() }));
+        }
+    }
+    if !thorough {
+        // class D (quick): one thread makes two mutating calls / sessions, the other one, on {/a, /a/f}
+        let muts: Vec<Vec<Call>> = items(&["/a", "/a/f"], false).into_iter().filter(|i| !matches!(i[0], Call::ReadDir(_) | Call::Exists(_))).collect();
+        for init in inits16() {
+            for a in &muts {
+                for b in &muts {
+                    let mut two = a.clone();
+                    two.extend(b.iter().cloned());
+                    for c in &muts {
+                        programs.push(("2 threads x (2,1) mutating calls/sessions on {/a,/a/f}".into(), LinProgram { init: init.clone(), threads: vec![two.clone(), c.clone()] }));
+                    }
+                }
+            }
         }
     }
     if thorough {
